@@ -213,6 +213,8 @@ pub fn check_lookups(v: &Value, r: &RVal) -> Result<u64, String> {
 					}
 					// every way of consuming the lookup iterators
 					n += crate::monitor::check_iter(&format!("indexes_of({:?})", k), &|| o.indexes_of(k), &wanti)?;
+					n += crate::monitor::check_iter_ord(&format!("indexes_of({:?})", k), &|| o.indexes_of(k), &|i: usize| i)?;
+					n += crate::monitor::check_iter_ord(&format!("get({:?})", k), &|| o.get(k), &|v: &Value| v as *const Value as usize)?;
 					let ptrs: Vec<usize> = wanti.iter().map(|&i| &o.entries()[i].value as *const Value as usize).collect();
 					n += crate::monitor::check_iter_by(&format!("get({:?})", k), &|| o.get(k), &|v: &Value| v as *const Value as usize, &ptrs)?;
 					let wi: Vec<(usize, usize)> = wanti.iter().zip(&ptrs).map(|(i, p)| (*i, *p)).collect();
